@@ -10,9 +10,10 @@
   state at the START of the step), `finalV` = its entries of `stats` after the last step.
 -/
 import SnowProofs.Lemmas.FlakeStats
+import SnowProofs.Lemmas.FlakeCex
 
 namespace Snow.C12
-open Snow Num Snow.Flake Snow.FlakeLemmas Snow.FlakeRun Snow.FlakeStats Snow.FlakeStatsLemmas
+open Snow Num Snow.Flake Snow.FlakeLemmas Snow.FlakeRun Snow.FlakeStats Snow.FlakeStatsLemmas Snow.FlakeCex
 
 /-- Hypotheses under which the statistics of vial `i` are read off its trajectory:
 positive step, non-negative threshold, a positive initial amount of ice for a supercooled
@@ -192,7 +193,7 @@ theorem counter_states (times : List ℝ) (thr : Option ℝ) (solThr : ℝ) (t :
     ∀ q, (∃ x ∈ t, q ≤ x) →
       ∃ hI : timeIdx t q < t.length, q ≤ t[timeIdx t q] ∧ ∀ j (hj : j < t.length), j < timeIdx t q → t[j] < q := by
   constructor
-  · simp only [sigmaCounter, Bool.not_true, Bool.false_eq_true, if_false, sigmaCount1, if_true]
+  · simp only [sigmaCounter, Bool.not_true, Bool.false_eq_true, if_false]
     induction times with
     | nil => rfl
     | cons q r ih => simp only [List.mapM_cons, List.map_cons, ih]; rfl
@@ -203,5 +204,113 @@ theorem counter_states (times : List ℝ) (thr : Option ℝ) (solThr : ℝ) (t :
     intro j hj hlt
     have := h2 j hj hlt
     simpa [timeIdx] using this
+
+
+/-- **the counters of nucleated vials agree with the trajectories** at every on-grid time `t[m]`
+(full recording): the stats path counts `#{i | t_nucleation[i] ≤ t[m]}`, the states path counts
+`#{i | X_sigma[i, m] > 0}`, and the two numbers are equal. -/
+theorem counter_nuc_stats (hall : ∀ i, i < inp.nVials → Hyp inp kCN i) (m : Nat) (hm : m < NN inp)
+    (solThr : ℝ) (sS : List (Option ℝ)) :
+    let t := timeVec (NN inp) inp.p.dt
+    let Xs := (List.range inp.nVials).map (sigmaRow inp kCN)
+    let sT := (List.range inp.nVials).map fun i => (finalV inp kCN i).tNuc
+    sigmaCounter true [timeAt inp.p.dt m] (some 0) solThr false t Xs sT sS = .ok [countLe sT (timeAt inp.p.dt m)] ∧
+    sigmaCounter true [timeAt inp.p.dt m] (some 0) solThr true t Xs sT sS = .ok [countAbove 0 Xs m] ∧
+    countLe sT (timeAt inp.p.dt m) = countAbove 0 Xs m := by
+  intro t Xs sT
+  have hdt : 0 < inp.p.dt ∨ inp.nVials = 0 := by
+    rcases Nat.eq_zero_or_pos inp.nVials with h | h
+    · right; exact h
+    · left; exact (hall 0 h).dt_pos
+  refine ⟨?_, ?_, ?_⟩
+  · simp [sigmaCounter, sigmaCount1]
+  · rcases hdt with hdt | h0
+    · simp only [sigmaCounter, Bool.not_true, Bool.false_eq_true, if_false, sigmaCount1, if_true,
+        Option.getD_some, List.mapM_cons, List.mapM_nil]
+      rw [show timeIdx t (timeAt inp.p.dt m) = m from timeIdx_grid _ _ hdt m hm]
+      rfl
+    · simp [sigmaCounter, sigmaCount1, Xs, h0, countAbove]
+  · simp only [countLe, countAbove, sT, Xs, List.countP_map]
+    apply List.countP_congr
+    intro i hi
+    have hi' : i < inp.nVials := List.mem_range.mp hi
+    have h := hall i hi'
+    have hiff := nucleated_by_iff inp kCN i hi' h.dt_pos h.jump h.adm m hm
+    have hrow : (sigmaRow inp kCN i)[m]? = some (nth (vtraj inp kCN i) m).sigma := by
+      rw [← sigmaRow_get inp kCN i m hm]; exact List.getElem?_eq_getElem _
+    simp only [Function.comp, hrow, decide_eq_true_eq]
+    constructor
+    · intro hh
+      cases ht : (finalV inp kCN i).tNuc with
+      | none => rw [ht] at hh; exact absurd hh (by simp)
+      | some τ =>
+        rw [ht] at hh
+        exact hiff.mp ⟨τ, ht, by simpa using hh⟩
+    · intro hh
+      obtain ⟨τ, ht, hle⟩ := hiff.mpr hh
+      rw [ht]; simpa using hle
+
+/-- **K3**: a vial that nucleates in the LAST step gets `t_nucleation = N·dt`, which is not a grid
+time of the process (the grid ends at `(N−1)·dt`), no stored column shows its ice, and the
+states-derived nucleation time is NaN while the recorded one is not. -/
+theorem tnuc_last_step_counterexample (kCN : Nat) :
+    NN (cexInp 0) = 1 ∧ timeVec 1 (cexInp 0).p.dt = [0] ∧
+    (finalV (cexInp 0) kCN 0).tNuc = some 1 ∧
+    sigmaRow (cexInp 0) kCN 0 = [0] ∧
+    tNucStates [true] (timeVec 1 (cexInp 0).p.dt) [sigmaRow (cexInp 0) kCN 0] = [none] := by
+  refine ⟨cex_NN0, ?_, ?_, cex0_sigmaRow kCN, ?_⟩
+  · rw [Snow.CNT.timeVec_real 1 (by simp [cexInp])]; simp
+  · rw [finalV, cex0_final]; simp [vAt, cexS1, cexV1]
+  · rw [cex0_sigmaRow]; simp [tNucStates, crossTimes, scatter, never]
+
+/-- **K2**: `nucleationTemperatures(fromStates=True)` (−10, the temperature stored before the
+nucleating step) differs from the recorded `T_nucleation` (−20, after that step's update). -/
+theorem fromStates_Tnuc_counterexample (kCN : Nat) :
+    TNucStates [true] [tempRow (cexInp 2) kCN 0] [sigmaRow (cexInp 2) kCN 0] = [some (-10)] ∧
+    (finalV (cexInp 2) kCN 0).TNuc = some (-20) := by
+  constructor
+  · rw [cex2_sigmaRow, cex2_tempRow]
+    have hc := crossIdx_eq (0:ℝ) [0, 2⁻¹, 41/44] 1 (by simp) (by norm_num)
+      (by intro j hj hlt; have : j = 0 := by omega
+          subst this; norm_num)
+    simp [TNucStates, scatter, getWrapPrev]
+    exact ⟨hc.2, by rw [hc.1]; simp⟩
+  · rw [finalV, cex2_final]; exact (cex_step2 2 kCN _).2.1
+
+
+/-- **K4**: `sigmaCounter(t)` on the stats path compares the solidification DURATION with the clock
+time `t`.  Here the vial nucleates in step 0 (`t_nucleation = 1`) above the threshold `1/4`, so
+`t_solidification = t[1] − 1 = 0`; at clock time `t = 0` no trajectory is above the threshold (the
+states path counts 0) but the stats path counts the vial (`0 ≤ 0`). -/
+theorem counter_sol_stats_counterexample (kCN : Nat) :
+    (finalV (cexInp 2) kCN 0).tNuc = some 1 ∧ (finalV (cexInp 2) kCN 0).tSol = some 0 ∧
+    sigmaCounter true [0] none (cexInp 2).p.threshold false (timeVec 3 (cexInp 2).p.dt)
+        [sigmaRow (cexInp 2) kCN 0] [(finalV (cexInp 2) kCN 0).tNuc] [(finalV (cexInp 2) kCN 0).tSol] = .ok [1] ∧
+    sigmaCounter true [0] none (cexInp 2).p.threshold true (timeVec 3 (cexInp 2).p.dt)
+        [sigmaRow (cexInp 2) kCN 0] [(finalV (cexInp 2) kCN 0).tNuc] [(finalV (cexInp 2) kCN 0).tSol] = .ok [0] := by
+  have h1 : (finalV (cexInp 2) kCN 0).tNuc = some 1 := by rw [finalV, cex2_final]; exact (cex_step2 2 kCN _).1
+  have h2 : (finalV (cexInp 2) kCN 0).tSol = some 0 := by rw [finalV, cex2_final]; exact (cex_step2 2 kCN _).2.2
+  have ht : timeVec 3 (cexInp 2).p.dt = [0, 1, 2] := by
+    rw [Snow.CNT.timeVec_real 3 (by simp [cexInp])]; simp [cexInp, List.range_succ]
+  refine ⟨h1, h2, ?_, ?_⟩
+  · rw [h1, h2]
+    simp [sigmaCounter, sigmaCount1, cexInp, countLe]
+  · rw [h1, h2, ht, cex2_sigmaRow]
+    have hI : timeIdx ([0, 1, 2] : List ℝ) 0 = 0 := by
+      unfold timeIdx
+      exact argmaxBool_eq _ _ 0 (by simp) (by simp) (by intro j hj hlt; omega)
+    simp [sigmaCounter, sigmaCount1, cexInp, countAbove, hI]
+
+
+/-! ### non-vacuity -/
+
+/-- the hypotheses are satisfiable on a concrete run in which the vial nucleates AND crosses the
+solidification threshold within the recorded columns (one vial, three steps) -/
+theorem nonvacuous (kCN : Nat) :
+    Hyp (cexInp 2) kCN 0 ∧ never 0 (sigmaRow (cexInp 2) kCN 0) = false ∧
+      never (cexInp 2).p.threshold (sigmaRow (cexInp 2) kCN 0) = false := by
+  refine ⟨⟨by simp [cexInp], by simp [cexInp], by simp [cexInp], cex_jumpPos 2, cex2_adm kCN⟩, ?_, ?_⟩
+  · rw [cex2_sigmaRow]; simp [never]
+  · rw [cex2_sigmaRow]; simp [never, cexInp]; norm_num
 
 end Snow.C12
